@@ -1656,6 +1656,7 @@ def remove_redundant_transpose_pairs_ir(graph: ir.Graph) -> None:
                 chain_nodes: List[ir.Node] = [T1]
                 allowed_nodes: List[ir.Node] = []
                 cur = consumers[0]
+                prev_val = T1_out
                 T2: Optional[ir.Node] = None
                 steps = 0
                 while steps < 8:
@@ -1665,6 +1666,20 @@ def remove_redundant_transpose_pairs_ir(graph: ir.Graph) -> None:
                         cur_val = _node_output(m)
                         if _value_is_observed(graph, nodes, cur_val):
                             break
+                        # Multi-input members (Max/Min/Clip) commute with the
+                        # transposition only when every side operand is a
+                        # scalar constant; CastLike's second input only
+                        # supplies a dtype.
+                        side_inputs = [
+                            iv
+                            for pos, iv in enumerate(_node_inputs(m))
+                            if iv is not None
+                            and iv is not prev_val
+                            and not (m.op_type == "CastLike" and pos == 1)
+                        ]
+                        if any(not _is_scalar_const_value(iv) for iv in side_inputs):
+                            break
+                        prev_val = cur_val
                         chain_nodes.append(m)
                         allowed_nodes.append(m)
                         next_nodes = _consumer_nodes(nodes, cur_val)
